@@ -6,8 +6,21 @@ witnesses / bounded stand-ins pass); exit 1 — a VIOLATION — is a false alarm
 usage: tools/run_harmless.py [ids]"""
 import json, glob, os, subprocess, re, sys
 ROOT = os.path.dirname(os.path.dirname(os.path.abspath(__file__)))
-props = [p["id"] for p in json.load(open(os.path.join(ROOT, "MANIFEST.json")))["properties"]]
+props = sorted({p for e in json.load(open(os.path.join(ROOT, "MANIFEST.json")))["engines"] for p in e["serves_properties"]})
 only = sys.argv[1:]
+sys.path.insert(0, os.path.join(ROOT, "vx")); sys.path.insert(0, os.path.join(ROOT, "units"))
+import importlib, registry
+from gen import Fn
+def props_for(files):
+    """the properties whose contract units extract a function from one of the files (the bounded stand-ins of the other properties see
+    the same output as before: the refactors were checked by a differential run of the binary)"""
+    out = []
+    for p in props:
+        for u in registry.PROPS[p].get("units", []):
+            m = importlib.import_module(u)
+            if any(isinstance(it, Fn) and it.file in files for it in m.UNIT.items):
+                out.append(p); break
+    return out
 store = os.path.join(ROOT, "harmless", "results.json")
 allrows = json.load(open(store)) if os.path.exists(store) else {}
 for d in sorted(glob.glob(os.path.join(ROOT, "harmless", "H*"))):
@@ -20,7 +33,8 @@ for d in sorted(glob.glob(os.path.join(ROOT, "harmless", "H*"))):
         allrows[hid] = dict(result="patch does not apply to the current /repo HEAD"); continue
     res = {}
     try:
-        for p in props:
+        files = set(re.findall(r"^\+\+\+ b/(\S+)", open(os.path.join(d, "patch.diff")).read(), re.M))
+        for p in props_for(files):
             r = subprocess.run(["./check", p], cwd=ROOT, capture_output=True, text=True, timeout=2400)
             vio = re.findall(r"VIOLATION property=\S+ replay=(\S+)", r.stdout)
             labels = []
